@@ -29,6 +29,7 @@ type c07Case struct {
 	Params   []c07Param `json:"params"`
 	Constrain bool      `json:"constrain"` // use Selection.Constrain instead of Find("path?query")
 	Invalid  bool       `json:"invalid"`   // a parameter value is invalid: an error is expected
+	Via      dm.Path    `json:"via,omitempty"` // Find(path?query) is issued from this container with leading ../ steps
 }
 
 type leafRec struct {
@@ -251,7 +252,15 @@ func c07Run(c c07Case, o *hx.Obs) {
 					}
 				}
 			} else {
-				if sel, rerr = b.Root().Find(path + "?" + query); rerr != nil {
+				from, rel := b.Root(), path
+				if len(c.Via) > 0 {
+					if from, rerr = from.Find(findPath(c.Via)); rerr != nil || from == nil {
+						rerr = fmt.Errorf("harness: via not found: %v", rerr)
+						return
+					}
+					rel = strings.Repeat("../", len(c.Via)) + path
+				}
+				if sel, rerr = from.Find(rel + "?" + query); rerr != nil {
 					return
 				}
 				if sel == nil {
@@ -444,6 +453,24 @@ func c07Gen(t *rapid.T) c07Case {
 	if len(targets) > 0 && rapid.IntRange(0, 2).Draw(t, "nonroot") == 0 {
 		c.Target = targets[rapid.IntRange(0, len(targets)-1).Draw(t, "target")]
 	}
+	if !c.Constrain && rapid.IntRange(0, 2).Draw(t, "via") == 0 {
+		// a container reached through containers only (the parent selection of a list entry is the list)
+		var vias []dm.Path
+		for _, p := range dm.AllPaths(root, data, nil) {
+			ok := true
+			for _, seg := range p {
+				if seg.Key != nil {
+					ok = false
+				}
+			}
+			if n, _, _ := dm.Resolve(root, data, p); ok && n.Kind == "container" {
+				vias = append(vias, p)
+			}
+		}
+		if len(vias) > 0 {
+			c.Via = vias[rapid.IntRange(0, len(vias)-1).Draw(t, "via-path")]
+		}
+	}
 	tn, _, _ := dm.Resolve(root, data, c.Target)
 	np := rapid.SampledFrom([]int{1, 1, 1, 2, 2, 3}).Draw(t, "nparams")
 	used := map[string]bool{}
@@ -480,7 +507,7 @@ func c07Gen(t *rapid.T) c07Case {
 
 var c07Proj = hx.Register(&hx.Check[c07Case]{
 	Name: "c07-projection",
-	Rule: "generated schema (config and non-config nodes, defaults, nested lists, choices) + data with leaves planted at their default; target = root, container or list entry; 1-3 of {content, depth 1..6, fields / fc.xfields with multi-segment, alternative and grouped paths, with-defaults}; both Find(path?query) and Constrain(query); oracle: the set of (path, value) of non-key leaves equals the intersection of the per-parameter projections of the unconstrained read taken through the same writer; invalid values must be errors; non-trivial = the projection removes something but not everything, or an error is expected",
+	Rule: "generated schema (config and non-config nodes, defaults, nested lists, choices) + data with leaves planted at their default; target = root, container or list entry; 1-3 of {content, depth 1..6, fields / fc.xfields with multi-segment, alternative and grouped paths, with-defaults}; Find(path?query) from the root or from another container with leading ../ steps, and Constrain(query); oracle: the set of (path, value) of non-key leaves equals the intersection of the per-parameter projections of the unconstrained read taken through the same writer; invalid values must be errors; non-trivial = the projection removes something but not everything, or an error is expected",
 	Gen:  c07Gen,
 	Run:  c07Run,
 })
@@ -500,6 +527,7 @@ type c07RangeCase struct {
 	Module *dm.Module `json:"module"`
 	Data   dm.Tree    `json:"data"`
 	List   []string   `json:"list"` // selector path (names) from the root to the list
+	Also   [][]string `json:"also,omitempty"` // further alternatives of the selector: lists nested in that list
 	Start  int        `json:"start"`
 	End    int        `json:"end"` // -1 = open
 	MaxNode int       `json:"maxNode"` // >= 0: test fc.max-node-count instead
@@ -603,7 +631,29 @@ func c07RangeRun(c c07RangeCase, o *hx.Obs) {
 	if c.End >= 0 {
 		endStr = fmt.Sprint(c.End)
 	}
-	query := "fc.range=" + url.QueryEscape(fmt.Sprintf("%s!%d-%s", strings.Join(c.List, "/"), c.Start, endStr))
+	sel := strings.Join(c.List, "/")
+	named := [][]string{c.List}
+	for _, a := range c.Also {
+		sel += ";" + strings.Join(a, "/")
+		named = append(named, a)
+	}
+	isNamed := func(p []string) bool {
+		for _, n := range named {
+			if strings.Join(n, "/") == strings.Join(p, "/") {
+				return true
+			}
+		}
+		return false
+	}
+	leadsToNamed := func(p []string) bool {
+		for _, n := range named {
+			if len(n) > len(p) && strings.Join(n[:len(p)], "/") == strings.Join(p, "/") {
+				return true
+			}
+		}
+		return false
+	}
+	query := "fc.range=" + url.QueryEscape(fmt.Sprintf("%s!%d-%s", sel, c.Start, endStr))
 	got, text, gerr, panicked := read(query)
 	if panicked {
 		return
@@ -614,20 +664,23 @@ func c07RangeRun(c c07RangeCase, o *hx.Obs) {
 		if nested {
 			s += "|nested-list"
 		}
+		if len(c.Also) > 0 {
+			s += "|several-lists"
+		}
 		return s
 	}
 	if gerr != nil {
 		o.Failf(sig("error"), "read with %q failed: %v", query, gerr)
 		return
 	}
-	// walk both trees: lists on the selector path are windowed, everything else must be identical
-	var cmp func(n *dm.Node, f, g dm.Tree, depth int, where string) bool
-	cmp = func(n *dm.Node, f, g dm.Tree, depth int, where string) bool {
+	// walk both trees: every list the selector names is windowed, everything else must be identical
+	var cmp func(n *dm.Node, f, g dm.Tree, path []string, where string) bool
+	cmp = func(n *dm.Node, f, g dm.Tree, path []string, where string) bool {
 		for _, d := range n.DataChildren() {
 			fv, fok := f[d.Name]
 			gv, gok := g[d.Name]
-			onPath := depth < len(c.List) && c.List[depth] == d.Name
-			if d.Kind == "list" && onPath && depth == len(c.List)-1 {
+			cp := append(append([]string{}, path...), d.Name)
+			if d.Kind == "list" && isNamed(cp) {
 				fl, _ := fv.([]interface{})
 				gl, _ := gv.([]interface{})
 				rows := len(fl)
@@ -654,6 +707,13 @@ func c07RangeRun(c c07RangeCase, o *hx.Obs) {
 					return false
 				}
 				for i, ge := range gl {
+					if leadsToNamed(cp) {
+						// a list nested in this row is windowed as well: compare the row piecewise
+						if !cmp(d, fl[s+i].(dm.Tree), ge.(dm.Tree), cp, fmt.Sprintf("%s/%s[%d]", where, d.Name, s+i)) {
+							return false
+						}
+						continue
+					}
 					want := dm.Tree{d.Name: []interface{}{fl[s+i]}}
 					have := dm.Tree{d.Name: []interface{}{ge}}
 					if df := dm.Diff(n, want, have, dm.DiffOpts{IgnoreEmptyList: true}, where); len(df) > 0 {
@@ -667,6 +727,9 @@ func c07RangeRun(c c07RangeCase, o *hx.Obs) {
 				if l, isL := fv.([]interface{}); isL && len(l) == 0 {
 					continue
 				}
+				if l, isL := gv.([]interface{}); isL && len(l) == 0 {
+					continue
+				}
 				o.Failf(sig("other-data"), "%q changed the presence of %s/%s, which is not the selected list\n%s", query, where, d.Name, text)
 				return false
 			}
@@ -675,7 +738,7 @@ func c07RangeRun(c c07RangeCase, o *hx.Obs) {
 			}
 			switch d.Kind {
 			case "container":
-				if !cmp(d, fv.(dm.Tree), gv.(dm.Tree), map[bool]int{true: depth + 1, false: 99}[onPath], where+"/"+d.Name) {
+				if !cmp(d, fv.(dm.Tree), gv.(dm.Tree), cp, where+"/"+d.Name) {
 					return false
 				}
 			case "list":
@@ -685,7 +748,7 @@ func c07RangeRun(c c07RangeCase, o *hx.Obs) {
 					return false
 				}
 				for i := range fl {
-					if !cmp(d, fl[i].(dm.Tree), gl[i].(dm.Tree), map[bool]int{true: depth + 1, false: 99}[onPath], fmt.Sprintf("%s/%s[%d]", where, d.Name, i)) {
+					if !cmp(d, fl[i].(dm.Tree), gl[i].(dm.Tree), cp, fmt.Sprintf("%s/%s[%d]", where, d.Name, i)) {
 						return false
 					}
 				}
@@ -698,7 +761,7 @@ func c07RangeRun(c c07RangeCase, o *hx.Obs) {
 		}
 		return true
 	}
-	cmp(root, full, got, 0, "")
+	cmp(root, full, got, nil, "")
 }
 
 func min(a, b int) int {
@@ -710,7 +773,7 @@ func min(a, b int) int {
 
 var c07Range = hx.Register(&hx.Check[c07RangeCase]{
 	Name: "c07-range-maxnode",
-	Rule: "schemas with lists (also lists nested in lists and containers), 0-6 rows; fc.range=<path>!s-e with empty, open-ended, single-row and out-of-range windows: the named list must hold a contiguous run of the full read starting at row s whose length is within the two readings of the end bound, every other node unchanged; fc.max-node-count=N: no partial answer without an error, an error when N is below the number of top-level containers, no error when N covers every node; non-trivial = window strictly inside a list of >= 3 rows, or N below the node count",
+	Rule: "schemas with lists (also lists nested in lists and containers), 0-6 rows; fc.range=<path>[;<path of a list nested in it>...]!s-e with empty, open-ended, single-row and out-of-range windows: every named list must hold a contiguous run of the full read starting at row s whose length is within the two readings of the end bound, every other node unchanged; fc.max-node-count=N: no partial answer without an error, an error when N is below the number of top-level containers, no error when N covers every node; non-trivial = window strictly inside a list of >= 3 rows, or N below the node count",
 	Gen: func(t *rapid.T) c07RangeCase {
 		o := dm.DefaultGen()
 		o.Types = []string{"int32", "string", "boolean"}
@@ -744,6 +807,12 @@ var c07Range = hx.Register(&hx.Check[c07RangeCase]{
 			return c
 		}
 		c.List = lists[rapid.IntRange(0, len(lists)-1).Draw(t, "list")]
+		// further alternatives: lists nested in the items of that list get the same window
+		for _, l := range lists {
+			if len(l) > len(c.List) && strings.Join(l[:len(c.List)], "/") == strings.Join(c.List, "/") && rapid.Bool().Draw(t, "also-nested") {
+				c.Also = append(c.Also, l)
+			}
+		}
 		c.Start = rapid.IntRange(0, 7).Draw(t, "start")
 		if rapid.IntRange(0, 3).Draw(t, "open?") > 0 {
 			c.End = c.Start + rapid.IntRange(0, 4).Draw(t, "len")
